@@ -44,27 +44,36 @@ func c16TypeTables(c *Ctx) {
 		return
 	}
 	r2t := map[int64]string{}
-	for _, b := range recv.Blocks {
-		for _, in := range b.Instrs {
-			a, ok := in.(*ssa.Alloc)
-			if !ok {
-				continue
-			}
-			n := NamedOf(a.Type())
-			if n == nil || n.Obj().Pkg() == nil || RelPkg(n.Obj().Pkg().Path()) != agentRel {
-				continue
-			}
-			if _, isStruct := n.Underlying().(*types.Struct); !isStruct {
-				continue
-			}
-			for _, dc := range DomConds(a) {
-				if x, y, ok := eqCond(dc); ok {
-					if k, isC := ConstInt(y); isC {
-						_ = x
-						if prev, dup := r2t[k]; dup && prev != n.Obj().Name() {
-							c.Violate("type-tables", fmt.Sprintf("receive constant %d", k), p.InstrPos(a), "one type constant maps to two message structs")
+	// the tag-to-struct switch sits in receive itself or in a helper of the package it calls (newMessage(msgType))
+	recvFns := []*ssa.Function{recv}
+	for _, call := range Calls(recv) {
+		if hf := call.Common().StaticCallee(); hf != nil && InRepo(hf) && hf.Blocks != nil && PkgOf(hf) == PkgOf(recv) && hf != recv && hf != send && hf.Signature.Recv() == nil {
+			recvFns = append(recvFns, hf)
+		}
+	}
+	for _, rf := range recvFns {
+		for _, b := range rf.Blocks {
+			for _, in := range b.Instrs {
+				a, ok := in.(*ssa.Alloc)
+				if !ok {
+					continue
+				}
+				n := NamedOf(a.Type())
+				if n == nil || n.Obj().Pkg() == nil || RelPkg(n.Obj().Pkg().Path()) != agentRel {
+					continue
+				}
+				if _, isStruct := n.Underlying().(*types.Struct); !isStruct {
+					continue
+				}
+				for _, dc := range DomConds(a) {
+					if x, y, ok := eqCond(dc); ok {
+						if k, isC := ConstInt(y); isC {
+							_ = x
+							if prev, dup := r2t[k]; dup && prev != n.Obj().Name() {
+								c.Violate("type-tables", fmt.Sprintf("receive constant %d", k), p.InstrPos(a), "one type constant maps to two message structs")
+							}
+							r2t[k] = n.Obj().Name()
 						}
-						r2t[k] = n.Obj().Name()
 					}
 				}
 			}
@@ -363,6 +372,19 @@ func c16Primitives(c *Ctx) {
 	// ReadData / ReadString: ReadUint16 -> make(l) -> Read(buffer) -> return buffer / string(buffer)
 	for _, fn := range []*ssa.Function{rd, rs} {
 		s := strings.Join(seq(fn), ";")
+		// ReadString as a conversion of ReadData's result on the same decoder: string(d.ReadData())
+		if fn == rs && s == "ReadData" {
+			okDeleg := false
+			for _, r := range Returns(fn) {
+				if cv, ok := RetVals(r)[0].(*ssa.Convert); ok {
+					if call, ok := cv.X.(*ssa.Call); ok && call.Call.StaticCallee() == rd && len(call.Call.Args) == 1 && call.Call.Args[0] == ssa.Value(fn.Params[0]) {
+						okDeleg = true
+					}
+				}
+			}
+			c.Check(okDeleg, "codec-primitives", shortFn(fn)+" layout", p.Pos(fn.Pos()), "string(ReadData()) on the same decoder", shortFn(fn)+" calls ReadData but does not return its bytes as the string")
+			continue
+		}
 		okLen := false
 		for _, b := range fn.Blocks {
 			for _, in := range b.Instrs {
